@@ -199,6 +199,12 @@ type scBH struct {
 	// of it is ever on a chain of the case's shared state cache, and nothing of the shared one on its chain
 }
 
+type scLateDup struct {
+	hash   string
+	at     int
+	writes map[string]scEntry
+}
+
 type scTH struct {
 	tc      *statecache.TransactionCache
 	bid     string // block-cache handle, or "" for a query transaction
@@ -227,6 +233,13 @@ type scWorld struct {
 
 	res  *CaseResult
 	tags map[string]bool
+	// event log for the fingerprints of the open C06 findings (per key, per chain — never case-global)
+	clock    int
+	commitAt map[string]int            // hash -> time of the first effective commit
+	sremAt   map[string][]int          // key -> times of StateCache.Remove(key)
+	entryIdx map[string]map[string]int // key -> block -> creation number of the entry in the key's version map (since the last Remove)
+	entrySeq map[string]int            // key -> entries created in the key's version map since the last Remove
+	lateDups []scLateDup               // second commits of a hash after its link may have been evicted
 	schedErr string // suite c08: the scheduler could not drive the schedule of this run (wait timed out)
 	opi  int
 	op   string
@@ -259,6 +272,89 @@ func (w *scWorld) noteEntry(key, blk string) {
 		w.entryBlocks[key] = m
 	}
 	m[blk] = true
+}
+
+func (w *scWorld) tick() int { w.clock++; return w.clock }
+
+// noteCreated records that the implementation has created an entry for (key, blk) in the key's version map: the commit
+// of a block that wrote the key, or a state-level lookup at blk that HIT (the answer is memoised at the queried block)
+func (w *scWorld) noteCreated(key, blk string) {
+	if w.entryIdx == nil {
+		w.entryIdx, w.entrySeq = map[string]map[string]int{}, map[string]int{}
+	}
+	m := w.entryIdx[key]
+	if m == nil {
+		m = map[string]int{}
+		w.entryIdx[key] = m
+	}
+	if _, ok := m[blk]; !ok {
+		w.entrySeq[key]++
+		m[blk] = w.entrySeq[key]
+	}
+}
+
+// fingerprint decides whether a WRONG HIT `val` of a state-level lookup of key at block blk is one of the open C06
+// findings. All three predict the same shape — the entry of the expected writer W (first writer of the key on the chain
+// of blk) is gone and the lookup walks on to a PROPER ANCESTOR A of W on that chain and returns A's write — and differ in
+// how W's entry got lost:
+//   - capacity: at least capPerKey-1 entries were created in the key's version map after W's own entry (lookups that
+//     missed create none; entries older than W's cannot evict it);
+//   - remove-out-of-order: a Remove(key) happened after W's commit and before A's commit (A re-created the map);
+//   - recommit-after-remove: a Remove(key) after W's commit, and after it a second, late commit of A's hash.
+// Anything else — a sibling's, a descendant's, another key's value, a value from nowhere — is judged normally.
+func (w *scWorld) fingerprint(key, blk, val string) string {
+	var path []string
+	seen := map[string]bool{}
+	for cur := blk; ; {
+		b, ok := w.T[cur]
+		if !ok || seen[cur] {
+			break
+		}
+		seen[cur] = true
+		path = append(path, cur)
+		cur = b.prev
+	}
+	wi := -1
+	for i, h := range path {
+		if _, ok := w.T[h].writes[key]; ok {
+			wi = i
+			break
+		}
+	}
+	if wi < 0 {
+		return ""
+	}
+	W := path[wi]
+	cW := w.commitAt[W]
+	for _, A := range path[wi+1:] {
+		e, ok := w.T[A].writes[key]
+		own := ok && !e.tomb && e.val == val
+		if own {
+			if idx, ok := w.entryIdx[key][W]; ok && w.entrySeq[key]-idx >= scCapPerKey-1 {
+				return findingEviction
+			}
+			for _, s := range w.sremAt[key] {
+				if cW < s && s < w.commitAt[A] {
+					return findingRemove
+				}
+			}
+		}
+		for _, d := range w.lateDups {
+			if d.hash != A {
+				continue
+			}
+			de, dok := d.writes[key]
+			if !own && !(dok && !de.tomb && de.val == val) {
+				continue
+			}
+			for _, s := range w.sremAt[key] {
+				if cW < s && s < d.at {
+					return findingRecommit
+				}
+			}
+		}
+	}
+	return ""
 }
 
 // chain returns the oracle answer for key at block hash: (entry, found, distance).
@@ -355,17 +451,19 @@ func (w *scWorld) judge(out string, x scExpect, key, stateBlk string, throughSta
 				what = "value " + x.e.val + " (from " + x.src + ")"
 			}
 			w.fail("lookup returned %q but the block tree determines %s", out, what)
-			// narrow matcher of the open known finding
-			if throughState && len(w.entryBlocks[key]) > scCapPerKey {
-				w.setFinding(findingEviction)
-			} else if throughState && w.removed[key] && w.outOfOrder {
-				w.setFinding(findingRemove)
-			} else if throughState && w.removed[key] && w.lateDup {
-				w.setFinding(findingRecommit)
-			} else {
-				w.setFinding("")
+			// narrow matchers of the open known findings: the fingerprint of each, value included
+			id := ""
+			if throughState {
+				id = w.fingerprint(key, stateBlk, out[len("hit "):])
+			}
+			w.setFinding(id)
+			if throughState {
+				w.noteCreated(key, stateBlk)
 			}
 		} else {
+			if throughState && x.src != "blk" && x.src != "txn" {
+				w.noteCreated(key, stateBlk) // memoised at the queried block (or its own entry, already there)
+			}
 			if x.src == "chain" && x.dist > 0 {
 				w.ancestorHits++
 			}
@@ -438,9 +536,18 @@ func (w *scWorld) recordCommit(b *scBH) {
 		if w.commits-w.commitSeq[b.hash] >= scMaxDepth {
 			w.lateDup = true
 			w.tags["commit:duplicate-after-link-loss"] = true
+			cp := map[string]scEntry{}
+			for k, e := range b.pending {
+				cp[k] = e
+			}
+			w.lateDups = append(w.lateDups, scLateDup{hash: b.hash, at: w.tick(), writes: cp})
 		}
 		return
 	}
+	if w.commitAt == nil {
+		w.commitAt = map[string]int{}
+	}
+	w.commitAt[b.hash] = w.tick()
 	w.commitSeq[b.hash] = w.commits
 	for _, x := range w.T {
 		if x.prev == b.hash && b.hash != "" {
@@ -452,6 +559,7 @@ func (w *scWorld) recordCommit(b *scBH) {
 	w.T[b.hash] = blk
 	for k := range blk.writes {
 		w.noteEntry(k, b.hash)
+		w.noteCreated(k, b.hash)
 	}
 	b.pending = map[string]scEntry{}
 	b.effective = true
@@ -625,6 +733,10 @@ func (w *scWorld) step(i int, op string) string {
 	case "bcommit":
 		need(2)
 		out := guard(func() string { w.commitBlock(getB(f[1])); return "ok" })
+		if out != "ok" {
+			w.fail("BlockCache.Commit: %s", out)
+			w.setFinding("")
+		}
 		return out
 	case "qget":
 		need(3)
@@ -645,6 +757,12 @@ func (w *scWorld) step(i int, op string) string {
 		w.sc.Remove(f[1])
 		w.removed[f[1]] = true
 		delete(w.entryBlocks, f[1]) // the map starts empty again
+		delete(w.entryIdx, f[1])
+		delete(w.entrySeq, f[1])
+		if w.sremAt == nil {
+			w.sremAt = map[string][]int{}
+		}
+		w.sremAt[f[1]] = append(w.sremAt[f[1]], w.tick())
 		w.tags["remove-key"] = true
 		return "ok"
 	case "chain":
